@@ -52,7 +52,7 @@ static void brngBlockInc(octet block[32])
 		++w[i];
 #endif
 	}
-	while (w[i] == 0 && i++ < W_OF_O(32));
+	while (w[i] == 0 && ++i < W_OF_O(32));
 	i = 0;
 }
 
